@@ -57,6 +57,8 @@ type Contract struct {
 	Falsify  []*Clause
 	Function bool
 	Havoc    bool
+	GhostVars []*Clause // By = name
+	Sets      []*Clause // By = name
 }
 
 // parseContracts reads //@ blocks from the zz_verif_contracts*.go files of a package.
@@ -173,6 +175,26 @@ func (p *Program) contractLine(pk *packages.Package, cur **Contract, line, pos s
 			return fmt.Errorf("%s: bad ghost type %q", pos, t)
 		}
 		c.Ghost = append(c.Ghost, GhostParam{Name: n, Type: te})
+	case "ghostvar":
+		// ghostvar <name> = <expr>: path-sensitive ghost state of the function under verification
+		n, r := splitWord(rest)
+		r = strings.TrimSpace(strings.TrimPrefix(strings.TrimSpace(r), "="))
+		cl, err := mkClause(r)
+		if err != nil {
+			return err
+		}
+		cl.By = n
+		c.GhostVars = append(c.GhostVars, cl)
+	case "sets":
+		// sets <name> = <expr>: applying this contract records expr (over its arguments/results) in the caller's ghost state
+		n, r := splitWord(rest)
+		r = strings.TrimSpace(strings.TrimPrefix(strings.TrimSpace(r), "="))
+		cl, err := mkClause(r)
+		if err != nil {
+			return err
+		}
+		cl.By = n
+		c.Sets = append(c.Sets, cl)
 	case "falsify":
 		// falsify <expr>: quantifier-free stand-in for the requires clauses when the unit is
 		// re-run as a falsifier (contracts ignored, loops unrolled); must imply them.
@@ -446,6 +468,11 @@ func (e *evalEnv) eval(ex ast.Expr) Value {
 		}
 		if v, ok := e.vars[n.Name]; ok {
 			return v
+		}
+		if gk, ok := x.ghostKeys[n.Name]; ok {
+			if v, ok := e.st.Env[gk]; ok {
+				return v
+			}
 		}
 		if e.local != nil {
 			if v, ok := e.local(n.Name); ok {
